@@ -46,7 +46,7 @@ def eqM {β : Type} [DecidableEq β] (a b : Option β) : Bool :=
     (`PDPredictivePlot.add_data`), then the default / membership test.
     `observable = none` is Python's `None`.  The result may be "missing" only when
     `dropna = false`; `nanIn` says how `in` treats the missing marker of that column's dtype. -/
-def chooseObs (dropna nanIn : Bool) (rows : List (Row ι ο τ ν)) (observable : Option ο) :
+def chooseObsLegacy (dropna nanIn : Bool) (rows : List (Row ι ο τ ν)) (observable : Option ο) :
     Except PErr (Option ο) :=
   let types := uniq (rows.map (·.obs))
   let types := if dropna then types.filter (·.isSome) else types
@@ -59,6 +59,11 @@ def chooseObs (dropna nanIn : Bool) (rows : List (Row ι ο τ ν)) (observable 
       -- (`nan == nan` is false), `False` for a pandas string array (`nanIn`)
       if t.isSome || nanIn then .ok t else .error .valueError
   | some o => if some o ∈ types then .ok (some o) else .error .valueError
+
+/-- the code as it is (all four figure classes): `biom_types = data[obs_key].dropna().unique()`,
+    default = first entry, an explicit observable must occur in the column -/
+def chooseObs (rows : List (Row ι ο τ ν)) (observable : Option ο) : Except PErr (Option ο) :=
+  chooseObsLegacy true true rows observable
 
 /-- `data[data[obs_key] == observable]` -/
 def maskObs (rows : List (Row ι ο τ ν)) (o : Option ο) : List (Row ι ο τ ν) :=
@@ -93,33 +98,43 @@ def fmtD (numeric : ι → Bool) : Option ι → Except PErr Unit
   | none => .error .valueError
   | some i => if numeric i then .ok () else .error .typeError
 
-/-- the loop `for index, _id in enumerate(ids)` of the PD figures (`legacy`: name built with `%d`;
-    otherwise with `%s`, as the PK figures do) -/
-def pdLoop (legacy : Bool) (numeric : ι → Bool) (data : List (Row ι ο τ ν)) :
+/-- pre-fix loop of the PD figures: the trace name was built with `%d` (`fmtLegacy`) -/
+def pdLoopLegacy (fmtLegacy : Bool) (numeric : ι → Bool) (data : List (Row ι ο τ ν)) :
     List (Option ι) → Except PErr (List (PDTrace ι τ ν))
   | [] => .ok []
   | i :: is =>
-    match (if legacy then fmtD numeric i else .ok ()) with
+    match (if fmtLegacy then fmtD numeric i else .ok ()) with
     | .error e => .error e
     | .ok () =>
-      match pdLoop legacy numeric data is with
+      match pdLoopLegacy fmtLegacy numeric data is with
       | .error e => .error e
       | .ok rest => .ok (⟨i, tv (maskId data i)⟩ :: rest)
 
-/-- `PDTimeSeriesPlot.add_data` (`dropna = true`) and `PDPredictivePlot.add_data`
-    (`dropna = false`).  Second component: the caller's frame after the call. -/
-def pdAddData (legacy dropna nanIn : Bool) (numeric : ι → Bool) (rows : List (Row ι ο τ ν))
+/-- pre-fix `PDTimeSeriesPlot.add_data` (`dropna = true`) / `PDPredictivePlot.add_data`
+    (`dropna = false`); kept for the counterexample theorems only -/
+def pdAddDataLegacy (fmtLegacy dropna nanIn : Bool) (numeric : ι → Bool) (rows : List (Row ι ο τ ν))
     (observable : Option ο) : Except PErr (List (PDTrace ι τ ν)) × List (Row ι ο τ ν) :=
-  (match chooseObs dropna nanIn rows observable with
+  (match chooseObsLegacy dropna nanIn rows observable with
    | .error e => .error e
    | .ok o =>
      let data := maskObs rows o
-     pdLoop legacy numeric data (uniq (data.map (·.id))), rows)
+     pdLoopLegacy fmtLegacy numeric data (uniq (data.map (·.id))), rows)
+
+/-- `PDTimeSeriesPlot.add_data` and `PDPredictivePlot.add_data` as they are (identical bodies):
+    observable mask, then one marker trace per entry of `ids = data[id_key].unique()`, named with
+    `"ID: %s" % str(_id)` (never raises).  Second component: the caller's frame after the call. -/
+def pdAddData (rows : List (Row ι ο τ ν)) (observable : Option ο) :
+    Except PErr (List (PDTrace ι τ ν)) × List (Row ι ο τ ν) :=
+  (match chooseObs rows observable with
+   | .error e => .error e
+   | .ok o =>
+     let data := maskObs rows o
+     .ok ((uniq (data.map (·.id))).map (fun i => ⟨i, tv (maskId data i)⟩)), rows)
 
 /-- `PKTimeSeriesPlot.add_data` and `PKPredictivePlot.add_data` (identical bodies) -/
 def pkAddData (rows : List (Row ι ο τ ν)) (observable : Option ο) :
     Except PErr (List (PKTrace ι τ ν)) × List (Row ι ο τ ν) :=
-  (match chooseObs true true rows observable with
+  (match chooseObs rows observable with
    | .error e => .error e
    | .ok o =>
      let dd := doseRows rows
@@ -132,7 +147,7 @@ def addSimulation (rows : List (Row ι ο τ ν)) : List (τ × ν) × List (Row
 /-- `add_prediction(..., bulk_probs=None)`: the samples of the observable as one scatter trace -/
 def predictionScatter (rows : List (Row ι ο τ ν)) (observable : Option ο) :
     Except PErr (List (τ × ν)) × List (Row ι ο τ ν) :=
-  (match chooseObs true true rows observable with
+  (match chooseObs rows observable with
    | .error e => .error e
    | .ok o => .ok (tv (maskObs rows o)), rows)
 
@@ -301,11 +316,19 @@ def residY (showRes showRel : Bool) (obs : α) (m : Option α) : Option α :=
     let y := if showRes then obs - m else obs
     some (if showRel then y / m else y)
 
-/-- `_add_predicted_versus_observed_scatter_plot`.
-    `readonly = true` is the code as it is under copy-on-write pandas: the in-place `-=` / `/=`
-    hit the read-only array returned by `Series.to_numpy()`; `fmtLegacy = true`: trace names
-    built with `%d`. -/
-def residLoop (readonly fmtLegacy : Bool) (numeric : ι → Bool) (showRes showRel : Bool)
+/-- `_add_predicted_versus_observed_scatter_plot` as it is: per entry of
+    `ids = meas[id_key].unique()` the individual's measurements, their mean predictions
+    (x) and `observations - mean` resp. `/ mean` computed out of place (y) -/
+def residLoop (showRes showRel : Bool) (meas : List (MRow ι ο τ α)) (pred : List (PRow ο τ α))
+    (ids : List (Option ι)) : List (RTrace ι α) :=
+  ids.map (fun i =>
+    let temp := meas.filter (fun r => eqM r.id i)
+    let means := temp.map (fun r => meanPred pred r.time)
+    ⟨i, means, (temp.zip means).map (fun rm => residY showRes showRel rm.1.value rm.2)⟩)
+
+/-- pre-fix loop. `readonly = true`: the in-place `-=` / `/=` hit the read-only array returned by
+    `Series.to_numpy()` under copy-on-write pandas; `fmtLegacy = true`: trace names built with `%d` -/
+def residLoopLegacy (readonly fmtLegacy : Bool) (numeric : ι → Bool) (showRes showRel : Bool)
     (meas : List (MRow ι ο τ α)) (pred : List (PRow ο τ α)) :
     List (Option ι) → Except PErr (List (RTrace ι α))
   | [] => .ok []
@@ -317,42 +340,108 @@ def residLoop (readonly fmtLegacy : Bool) (numeric : ι → Bool) (showRes showR
       match (if fmtLegacy then fmtD numeric i else .ok ()) with
       | .error e => .error e
       | .ok () =>
-        match residLoop readonly fmtLegacy numeric showRes showRel meas pred is with
+        match residLoopLegacy readonly fmtLegacy numeric showRes showRel meas pred is with
         | .error e => .error e
         | .ok rest =>
           .ok (⟨i, means, (temp.zip means).map (fun rm => residY showRes showRel rm.1.value rm.2)⟩
                 :: rest)
 
+/-- `individual not in list(self._measurements[id_key].unique())` -/
+def badIndividual (meas : List (MRow ι ο τ α)) (individual : Option ι) : Bool :=
+  match individual with
+  | some i => !((uniq (meas.map MRow.id)).contains (some i))
+  | none => false
+
+/-- `biom_types = data[obs_key].dropna().unique()`, default / membership test on the predictions -/
+def choosePredObs (pred : List (PRow ο τ α)) (observable : Option ο) : Except PErr (Option ο) :=
+  let types := (uniq (pred.map PRow.obs)).filter Option.isSome
+  match observable with
+  | none =>
+    match types with
+    | [] => .error .indexError
+    | t :: _ => .ok t
+  | some o => if some o ∈ types then .ok (some o) else .error .valueError
+
+/-- `measurements[measurements[id_key] == individual]` when an individual is requested -/
+def byIndividual (meas : List (MRow ι ο τ α)) (individual : Option ι) : List (MRow ι ο τ α) :=
+  match individual with
+  | some i => meas.filter (fun (r : MRow ι ο τ α) => eqM r.id (some i))
+  | none => meas
+
+/-- the steps after the observable is chosen: it must occur in the measurements; mask the
+    predictions; `_get_relevant_measurements` (individual, observable, every measured time needs a
+    prediction) -/
+def selectFor (meas : List (MRow ι ο τ α)) (pred : List (PRow ο τ α)) (o : Option ο)
+    (individual : Option ι) : Except PErr (List (MRow ι ο τ α) × List (PRow ο τ α)) :=
+  if !((uniq (meas.map MRow.obs)).contains o) then .error .valueError
+  else
+    let data := pred.filter (fun (r : PRow ο τ α) => eqM r.obs o)
+    let m2 := (byIndividual meas individual).filter (fun (r : MRow ι ο τ α) => eqM r.obs o)
+    let measured := (uniq (m2.map MRow.time)).filter Option.isSome
+    if measured.any (fun t => !(data.any (fun (r : PRow ο τ α) => eqM r.time t))) then
+      .error .valueError
+    else .ok (m2, data)
+
+/-- the validation and selection steps of `ResidualPlot.add_data` up to the scatter loop:
+    the selected measurements and the predictions of the chosen observable -/
+def residualSelect (meas : List (MRow ι ο τ α)) (pred : List (PRow ο τ α)) (observable : Option ο)
+    (individual : Option ι) : Except PErr (List (MRow ι ο τ α) × List (PRow ο τ α)) :=
+  if badIndividual meas individual then .error .valueError
+  else
+    match choosePredObs pred observable with
+    | .error e => .error e
+    | .ok o => selectFor meas pred o individual
+
 /-- `ResidualPlot(measurements).add_data(data, observable, individual, show_residuals,
-    show_relative)`; returns the traces and both caller frames after the call -/
-def residualAddData (readonly fmtLegacy : Bool) (numeric : ι → Bool) (meas : List (MRow ι ο τ α))
-    (pred : List (PRow ο τ α)) (observable : Option ο) (individual : Option ι)
-    (showRes showRel : Bool) :
+    show_relative)` as it is; returns the traces and both caller frames after the call -/
+def residualAddData (meas : List (MRow ι ο τ α)) (pred : List (PRow ο τ α)) (observable : Option ο)
+    (individual : Option ι) (showRes showRel : Bool) :
     Except PErr (List (RTrace ι α)) × List (MRow ι ο τ α) × List (PRow ο τ α) :=
-  let out : Except PErr (List (RTrace ι α)) :=
-    if (match individual with
-        | some i => !((uniq (meas.map MRow.id)).contains (some i))
-        | none => false) then .error .valueError
-    else
-      let types := (uniq (pred.map PRow.obs)).filter Option.isSome
-      match (match observable with
-             | none => (match types with
-                        | [] => Except.error PErr.indexError
-                        | t :: _ => .ok t)
-             | some o => if some o ∈ types then .ok (some o) else .error .valueError) with
-      | .error e => .error e
-      | .ok o =>
-        if !((uniq (meas.map MRow.obs)).contains o) then .error .valueError
-        else
-          let data := pred.filter (fun (r : PRow ο τ α) => eqM r.obs o)
-          let m1 := match individual with
-            | some i => meas.filter (fun (r : MRow ι ο τ α) => eqM r.id (some i))
-            | none => meas
-          let m2 := m1.filter (fun (r : MRow ι ο τ α) => eqM r.obs o)
-          let measured := (uniq (m2.map MRow.time)).filter Option.isSome
-          if measured.any (fun t => !(data.any (fun (r : PRow ο τ α) => eqM r.time t))) then .error .valueError
-          else residLoop readonly fmtLegacy numeric showRes showRel m2 data (uniq (m2.map MRow.id))
-  (out, meas, pred)
+  (match residualSelect meas pred observable individual with
+   | .error e => .error e
+   | .ok (m2, data) => .ok (residLoop showRes showRel m2 data (uniq (m2.map MRow.id))), meas, pred)
+
+/-- the pre-fix call, for the counterexample theorem -/
+def residualAddDataLegacy (readonly fmtLegacy : Bool) (numeric : ι → Bool)
+    (meas : List (MRow ι ο τ α)) (pred : List (PRow ο τ α)) (observable : Option ο)
+    (individual : Option ι) (showRes showRel : Bool) :
+    Except PErr (List (RTrace ι α)) × List (MRow ι ο τ α) × List (PRow ο τ α) :=
+  (match residualSelect meas pred observable individual with
+   | .error e => .error e
+   | .ok (m2, data) =>
+     residLoopLegacy readonly fmtLegacy numeric showRes showRel m2 data (uniq (m2.map MRow.id)),
+   meas, pred)
+
+/-! ### what the residual figure is meant to hold (comprehension over the rows) -/
+
+/-- the observable of the residual figure: the requested one, else the first non-missing
+    observable of the prediction frame -/
+def specPredObs (pred : List (PRow ο τ α)) (observable : Option ο) : Option ο :=
+  match observable with
+  | some o => some o
+  | none => (pred.filterMap (·.obs)).head?
+
+/-- mean of the non-missing predictions of observable `o` at time `t` -/
+def specMean (pred : List (PRow ο τ α)) (o : ο) (t : Option τ) : Option α :=
+  let xs := (pred.filter (fun r => decide (r.obs = some o) && eqM r.time t)).filterMap (·.value)
+  if xs.isEmpty then none else some (lsumR xs / ofNat xs.length)
+
+/-- the measurements of observable `o` entering the figure (all, or those of `individual`) -/
+def specMeas (meas : List (MRow ι ο τ α)) (o : ο) (individual : Option ι) : List (MRow ι ο τ α) :=
+  meas.filter (fun r => decide (r.obs = some o) &&
+    (match individual with
+     | none => true
+     | some i => decide (r.id = some i)))
+
+/-- one trace per individual: x = mean prediction at each of its measurement times,
+    y = measurement (minus the mean) (divided by the mean), in frame order -/
+def specResid (meas : List (MRow ι ο τ α)) (pred : List (PRow ο τ α)) (o : ο)
+    (individual : Option ι) (showRes showRel : Bool) : List (RTrace ι α) :=
+  let m := specMeas meas o individual
+  (uniq (m.map MRow.id)).map (fun i =>
+    let rows := m.filter (fun r => eqM r.id i)
+    ⟨i, rows.map (fun r => specMean pred o r.time),
+     rows.map (fun r => residY showRes showRel r.value (specMean pred o r.time))⟩)
 
 end residual
 
